@@ -28,8 +28,9 @@ def run(ctx, env):
     prog = env.prog("default")
     an = An(prog)
     ctx.rule("R10.5", "IPFIX templates: every parsed template reaches the cache by an overwriting write on every path, and the template reported in the result is the parsed one (shared with C06 R6.8)")
-    ctx.rule("R10.6", "the remainder returned by the record decoder (it becomes padding) advances once per complete record, never inside a nested per-field repetition")
-    reexport.cursor_atomicity_rule(ctx, prog, an, "R10.6", "variable_versions::ipfix::Data::parse_be")
+    ctx.rule("R10.6", "if a field-decode failure can be swallowed (decoder still returns Ok), the swallowed unit is a whole record: the failure is handled at record level and the returned remainder (it becomes padding) only advances there")
+    from . import records as _records
+    _records.cursor_rule(ctx, prog, an, "R10.6", "variable_versions::ipfix::Data::parse_be")
     from . import c06 as _c06
     _c06.rule_template_reaches_cache(ctx, prog, an, "R10.5", only_adt="variable_versions::ipfix::IPFixParser")
     lay = Layouts(prog, an)
